@@ -42,7 +42,7 @@ func runSchedule(n int, prefix []int, crc bool, op string) (choices []int, live 
 		go func() {
 			var e error
 			if op == "lock" {
-				e = core.PurgeLock(stores, core.WithPurgeLogger(zap.NewNop()))
+				e = core.PurgeLock(stores, core.WithPurgeLogger(zap.NewNop()), core.WithPurgeForce(false), core.WithPurgeResumeIndex(i%2 == 1))
 			} else {
 				e = core.CreateRepo(model.RepoDescriptor{Name: "r1", Description: names[i], Timestamp: time.Now(),
 					Contributor: model.Contributor{Name: "v", Email: "v@example.com"}}, stores)
